@@ -73,6 +73,25 @@ fn coeffs(fs: Hertz<f32>, f0: Hertz<f32>) -> Coefficients<f32> {
     Coefficients::<f32>::from_params(Type::SinglePoleLowPass, fs, f0, 0.0_f32).unwrap()
 }
 
+#[cfg(feature = "verif-hooks")]
+impl GlideProcessor {
+    /// The remembered time setting and a copy of the internal filter, for the verification harness (state identity only)
+    pub fn verif_snapshot(&self) -> (f32, DirectForm1<f32>) {
+        (self.cached_t, self.lpf)
+    }
+
+    /// An independent copy of the glide processor in exactly the same state
+    pub fn verif_clone(&self) -> Self {
+        Self {
+            min_fc: self.min_fc,
+            max_fc: self.max_fc,
+            fs: self.fs,
+            lpf: self.lpf,
+            cached_t: self.cached_t,
+        }
+    }
+}
+
 #[cfg(test)]
 mod tests {
     use super::*;
